@@ -233,8 +233,23 @@ def run(ctx, shard):
     ref = nzd_ref.load(data)
     if shard.get("meta"):
         run_meta(ctx, which, data, ref); return
-    prov, _ = provider_for(which, data)
     ids = sorted(set(ref["zones"]) | set(ref["idmap"]))
+    if shard["i"] % 2 == 1:
+        # every other shard first loads the OTHER database file in the same process and fetches the same ids from it: what a zone of this file
+        # says must not depend on another file having been read before
+        other = [f for f in FILES if f != which and file_bytes(f) is not None]
+        if other:
+            try:
+                oprov, _o = provider_for(other[0], file_bytes(other[0]))
+                for zid in ids[shard["i"]::shard["k"]]:
+                    try:
+                        oprov[zid]
+                    except Exception as e:  # noqa: BLE001  (the other file may not have that id)
+                        ctx.exc(e)
+                ctx.count("other_file_preloaded")
+            except Exception as e:  # noqa: BLE001
+                ctx.exc(e)
+    prov, _ = provider_for(which, data)
     full = ctx.tier == "thorough"
     for zid in ids[shard["i"]::shard["k"]]:
         is_alias = zid in ref["idmap"]
